@@ -41,7 +41,7 @@ fn c11_quantile_ci_total() {
     let n: usize = kani::any();
     let q: f64 = kani::any();
     let c = any_confidence();
-    kani::assume(n <= (1usize << 40));
+    kani::assume(n <= (1usize << 20));
     let r = ci_indices(c, n, q);
     if !(q > 0.0 && q < 1.0) {
         assert!(matches!(r, Err(CIError::InvalidQuantile(v)) if v.to_bits() == q.to_bits()), "quantile outside (0,1) (NaN included) must be InvalidQuantile");
